@@ -17,7 +17,8 @@ EXPLANATION = (
     "(7) cidr_match feeds argument 0 to the IpAddr parser and argument 1 to the AnyIpCidr parser, parse failure yields false."
     ' (6b) everything reachable from the Accessible::get implementations of request / target / source is a method of the address value itself and no address-rewriting std call occurs there; v6->v4 normalisation anywhere in the crate uses to_ipv4_mapped, never the lossy to_ipv4.'
     " (6c) udp-target: in the direct connector's UDP writer a destination other than the session target is chosen only under `session target is unspecified`; the first-match search may also be spelled as a for loop with break."
-    ' LAZY: the builtins the language documents as lazily evaluated (&&, ||, if) keep one deciding operand whose evaluation dominates the others, and every other operand can be bypassed on a successful path (a strict && turns `guard && partial` into a filter that fails, i.e. a rule that does not match).')
+    ' LAZY: the builtins the language documents as lazily evaluated (&&, ||, if) keep one deciding operand whose evaluation dominates the others, and every other operand can be bypassed on a successful path (a strict && turns `guard && partial` into a filter that fails, i.e. a rule that does not match).'
+    ' host-with-port: what the `host` arm of an attribute getter calls renders an IP address or the stored name, never a whole socket address.')
 RULE_TEXT = "instances = dominance queries, call sites and table rows listed above"
 TRUSTED = ["cidr::AnyIpCidr::contains implements CIDR containment", "milu evaluator computes the filter's value (C08 covers soundness only)"]
 NOT_DECIDED = ["CIDR arithmetic itself", "that the evaluator computes the mathematical value of a filter"]
@@ -472,6 +473,36 @@ def run(chk, prog):
         chk.finding("attributes", g.key, "rewritten", w, c.where(),
                     "%s, which feeds a filter attribute, passes the address through %s: rules are evaluated on an address that is not the "
                     "connection's (a deny rule on the real address no longer matches)" % (g.path, w))
+    # the `host` attribute is the address without its port: what the "host" arm of a getter calls renders an IP address (or returns the
+    # stored name), never a whole socket address, whose text form carries brackets, the port and a zone
+    from .c08 import arms_of as _arms_of
+    nh = 0
+    for gt in getters:
+        reg = _arms_of(gt).get("host")
+        if not reg:
+            continue
+        hostfns = []
+        for c in gt.calls:
+            lk = c.local_key()
+            if c.bb in reg and lk and lk in prog.fns and prog.fns[lk].crate == "redproxy_rs":
+                hostfns.append(prog.fns[lk])
+        for hf in hostfns:
+            nh += 1
+            badc = []
+            for g in [hf] + prog.children(hf):
+                for c in g.calls:
+                    if re.search(r"string::ToString::to_string$|fmt::rt::Argument::<'_>::new_(display|debug)$", c.path or "") and c.targs:
+                        ty = g.ty(c.targs[0])["s"]
+                        if re.search(r"net::socket_addr::SocketAddr(V4|V6)?\b", ty):
+                            badc.append((g, c, ty))
+            okh = not badc
+            chk.instance("attributes", "%s:%s" % (hf.file, hf.line), "%s renders the host from the IP address / stored name alone" % hf.path, okh)
+            for g, c, ty in badc:
+                chk.finding("attributes", g.key, "host-with-port", short(ty), c.where(),
+                            "%s, the `host` attribute of a request address, prints a whole %s: its text contains brackets and the port (and a "
+                            "zone), so `request.source.host` differs between connections of one host and no longer equals the host a rule "
+                            "compares it with" % (hf.path, short(ty)))
+    chk.floor("attributes-host", nh, 2, "host getters behind the Accessible::get implementations")
     # the source address itself is recorded as accepted, normalised only by the exact inverse of v4-mapping
     from . import shared as _sh6
     _sh6.rule_addr_map(chk, prog, "attributes", "source address filters see")
@@ -493,11 +524,18 @@ def run(chk, prog):
         why = "send_to calls %d, is_unspecified(self.target) tests %d" % (len(snd), len(uns))
         if okd:
             l = op_base(snd[0].args[2])
-            for _ in range(6):               # back through single moves to the variable assigned in the arms
-                d = g.defs.get(l, [])
-                if len(d) == 1 and d[0][1] != "term" and d[0][2]["k"] == "use" and op_base(d[0][2]["a"]) is not None and len(op_place(d[0][2]["a"])) == 1:
-                    l = op_base(d[0][2]["a"])
-                    continue
+            from .panics import _through_aggs
+            for _ in range(12):              # back through single moves to the variable assigned in the arms; when the choice sits in a
+                d = g.defs.get(l, [])        # helper, also through the `Ok(target)` / `?` its result comes back in
+                if len(d) == 1 and d[0][1] != "term" and d[0][2]["k"] == "use" and op_base(d[0][2]["a"]) is not None:
+                    pl = op_place(d[0][2]["a"])
+                    if len(pl) == 1:
+                        l = pl[0]
+                        continue
+                    o2 = _through_aggs(g, pl)
+                    if o2 is not None and "k" not in o2 and len(op_place(o2)) == 1:
+                        l = op_place(o2)[0]
+                        continue
                 break
             true_edges = [(sb, tt) for u in uns for (sb, tt, ft) in bool_branch(g, u.dest[0])]
             nd = 0
